@@ -44,6 +44,7 @@ type Contract struct {
 	Safety   map[string]bool
 	Requires []*Clause
 	Ensures  []*Clause
+	Defines  []*Clause // definitional postconditions: introduce an uninterpreted predicate as "this deterministic function accepts"; assumed at call sites, not checked
 	EnsuresLocal []*Clause // postconditions that may mention top-level local variables (their value at the return)
 	Assumes  []*Clause
 	Modifies []*Clause
@@ -94,7 +95,7 @@ type Lemma struct {
 var clauseKeywords = map[string]bool{
 	"func": true, "props": true, "safety": true, "requires": true, "ensures": true,
 	"modifies": true, "loop": true, "trusted": true, "pure": true, "opaque": true, "ghost": true,
-	"global": true, "lemma": true, "assumes": true, "import": true, "note": true, "cases": true, "end": true, "trustframe": true, "ensures-local": true,
+	"global": true, "lemma": true, "assumes": true, "import": true, "note": true, "cases": true, "end": true, "trustframe": true, "ensures-local": true, "defines": true,
 }
 
 var funcKeyRe = regexp.MustCompile(`^(?:\(\s*\*?\s*(\w+)\s*\)\s*\.\s*(\w+)|(\w+)\s*\.\s*(\w+)|(\w+))`)
@@ -241,6 +242,10 @@ func parseSpecFile(path, relDir string) (*PkgSpec, error) {
 				cur.Requires = append(cur.Requires, mk("requires", it.text, it.line, len(cur.Requires)))
 			case "ensures":
 				cur.Ensures = append(cur.Ensures, mk("ensures", it.text, it.line, len(cur.Ensures)))
+			case "defines":
+				c := mk("ensures", it.text, it.line, len(cur.Defines))
+				c.Label = fmt.Sprintf("defines%d", len(cur.Defines))
+				cur.Defines = append(cur.Defines, c)
 			case "ensures-local":
 				c := mk("ensures", it.text, it.line, len(cur.EnsuresLocal))
 				c.Label = fmt.Sprintf("ensureslocal%d", len(cur.EnsuresLocal))
@@ -467,7 +472,7 @@ var builtinRename = map[string]string{
 	"mapLen": "gh_mapLen", "allocated": "gh_allocated", "pureOf": "gh_pureOf",
 	"uf": "gh_uf", "ufb": "gh_ufb", "ufr": "gh_ufr", "seqOf": "gh_seqOf", "wrote": "gh_wrote", "div": "gh_div", "mod": "gh_mod",
 	"sameElems": "gh_sameElems", "abs": "gh_abs", "min": "gh_min", "max": "gh_max",
-	"count": "gh_count", "sum": "gh_sum", "upd": "gh_upd", "hdr": "gh_hdr", "kvDomain": "gh_kvDomain", "kvState": "gh_kvState", "kvHas": "gh_kvHas", "kvVal": "gh_kvVal", "kvWrites": "gh_kvWrites", "bytesId": "gh_bytesId", "keyOf": "gh_keyOf", "sameRef": "gh_sameRef", "arrOf": "gh_arrOf", "anyOf": "gh_anyOf", "unavail": "gh_unavail", "errIs": "gh_errIs", "mapEq": "gh_mapEq", "emptyMap": "gh_emptyMap",
+	"count": "gh_count", "sum": "gh_sum", "upd": "gh_upd", "hdr": "gh_hdr", "kvDomain": "gh_kvDomain", "kvState": "gh_kvState", "kvHas": "gh_kvHas", "kvVal": "gh_kvVal", "kvWrites": "gh_kvWrites", "bytesId": "gh_bytesId", "keyOf": "gh_keyOf", "sameRef": "gh_sameRef", "defined": "gh_defined", "arrOf": "gh_arrOf", "anyOf": "gh_anyOf", "unavail": "gh_unavail", "errIs": "gh_errIs", "mapEq": "gh_mapEq", "emptyMap": "gh_emptyMap",
 }
 
 var identCallRe = regexp.MustCompile(`\b([A-Za-z_]\w*)\s*\(`)
@@ -551,6 +556,7 @@ func gh_kvWrites() int                    { return 0 }
 func gh_bytesId(b []byte) int             { return 0 }
 func gh_keyOf(kf any, args ...any) int    { return 0 }
 func gh_sameRef(a, b any) bool            { return false }
+func gh_defined(a any) bool            { return false }
 func gh_arrOf[T any](x []T) *T            { return nil }
 func gh_anyOf[T any](x T) T              { return x }
 func gh_count(lo, hi int, f func(int) bool) int { return 0 }
